@@ -255,3 +255,47 @@ def shm_check(ctx, vh, prop, mc_cfgs, mutant, actions=None):
         "one process, threads as coroutines; the writer and the readers map the same POSIX shm object",
     ]
     return first, sel
+
+
+# ----------------------------------------------------------------------------- AfcMem (C40, C41)
+MEM_ACTIONS = ["wop", "wlk", "rop", "lk", "ld", "dsw", "fr"]
+
+
+def mem_project(a, args, s):
+    d = {"a": a, "t": args[0] if args else 100, "ch": s["chans"], "sh": s["shared"], "fr": s["freed"],
+         "p0": s["pc"]["100"], "wr": s["wres"]}
+    for i in range(len(s["what"])):
+        d["p%d" % (i + 1)] = s["pc"][str(i + 1)]
+        d["r%d" % (i + 1)] = [s["what"][i], s["tid"][i], s["rfail"][i], s["cid"][i], s["res"][i]]
+    return d
+
+
+def mem_behaviours(ctx, cfg, timeout=1800):
+    info, beh = schedules(ctx, "MC_AfcMem", cfg, mem_project, project_init=shm_init, delta=True, timeout=timeout)
+    c = cfg_constants(cfg)
+    n = len(info["init"]["what"])
+    out = [{"engine": "mem", "readers": n, "rops": int(c["ROps"]), "script": b["init"]["script"], "steps": b["steps"]}
+           for b in beh]
+    return info, out
+
+
+def mem_check(ctx, vh, prop):
+    """The memory::State part of C40 / C41: MC AfcMem + SCHED replay + history validation."""
+    r = ctx.tlc("MC_AfcMem", "MC_AfcMem.cfg", timeout=2400, cache=True)
+    ctx.require_actions(r, MEM_ACTIONS)
+    info, beh = mem_behaviours(ctx, "MC_AfcMem_g.cfg")
+    require_graph_actions(info, MEM_ACTIONS)
+    total = len(beh)
+    if not ctx.thorough and len(beh) > 2000:
+        beh = verif.sample(ctx.rng, beh, 2000)
+    trace = os.path.join(ctx.workdir, "mem.trace.ndjson")
+    res = replay(ctx, vh, "mem", beh, tag="mem", opts={"only": prop, "trace": trace,
+                                                        "trace_max": 100000 if ctx.thorough else 500})
+    ctx.absorb(res)
+    nev = validate_history(ctx, prop, trace, beh, tag="trace-mem")
+    ctx.cov.setdefault("schedule_graphs", {})["MC_AfcMem_g.cfg"] = {
+        "constants": cfg_constants("MC_AfcMem_g.cfg"), "states": info["states"], "transitions": info["transitions"],
+        "cover_paths": total, "replayed": len(beh), "steps_executed": sum(x.get("steps", 0) for x in res),
+        "history_events_validated_against_AfcAbs": nev}
+    ctx.cov.setdefault("design_constants", {})["MC_AfcMem.cfg"] = cfg_constants("MC_AfcMem.cfg")
+    ctx.assumptions.append("memory::State: its std mutex is announced by lock/unlock marker points; a critical section runs as one atomic step")
